@@ -305,6 +305,22 @@ def check_data(case):
     fs = final.state if final.exc is None else describe_exc(final.exc)
     labels.append("final=" + fs)
     sess = rconn.session
+    cache = server.get("sessionCache")
+    if cache is not None and reader == "s" and sess is not None and \
+            sess.sessionID and (ev == "fatal" or (
+                ev in ("eof", "eof_mid_record") and
+                not case["ignoreAbrupt"])):
+        # what the *cache* hands out for this id is what the next client
+        # gets to resume - also when this connection was itself resumed
+        try:
+            still = cache[sess.sessionID]
+        except KeyError:
+            still = None
+        if still is not None and still.resumable:
+            return bad("cached-session-resumable-after-failure:" + where,
+                       "connection %s; the session cache still returns a "
+                       "resumable session for its id" % fs, labels=labels)
+        labels.append("cache-checked")
     if ev == "close_notify":
         if not (final.state == "done" and not final.value):
             return bad("orderly-close-not-clean:" + where, fs, labels=labels)
